@@ -549,15 +549,24 @@ func runC02R4(c *eng.Ctx, r *eng.RuleCtx) {
 			if len(exprs) == 0 {
 				return false
 			}
+			nCache := 0
 			for _, x := range exprs {
 				if cl, isC := ast.Unparen(x).(*ast.CallExpr); isC && fetched[lv] && (eng.CalleeOf(info, cl) == types.Object(snapFor) || eng.CalleeOf(info, cl) == types.Object(snapForC)) {
+					nCache++
 					continue
+				}
+				// the empty list that stands in for "no snapshot" (`if s == nil { s = make([]T, 0) }`)
+				if mk := builtinCall(info, x, "make"); mk != nil && len(mk.Args) == 2 {
+					if k, isK := eng.ConstInt(info, mk.Args[1]); isK && k == 0 {
+						continue
+					}
 				}
 				if !fromCacheD(x, depth+1) {
 					return false
 				}
+				nCache++
 			}
-			return true
+			return nCache > 0
 		}
 		fromCache := func(e ast.Expr) bool { return fromCacheD(e, 0) }
 		snapAlias := copyAliases(info, f.Decl.Body)
